@@ -22,6 +22,7 @@ K = {
     "c02_validity_absent": dict(fns=["compile::compile_validity"], bounds="until: whole i128 range; since absent; no block", tier="quick"),
     "c02_metadata_int_exact": dict(fns=["coercion::expr_into_metadatum"], bounds="x: whole i128 range", tier="quick"),
     "c02_expr_into_number_exact": dict(fns=["coercion::expr_into_number"], bounds="x: whole i128 range", tier="quick"),
+    "c02_aggregate_coin_exact": dict(fns=["compile::asset_math::try_aggregate_values"], bounds="two lovelace entries, each over the whole u64 range", tier="quick"),
     "c02_reduce_add_exact": dict(fns=["<Expression as Arithmetic>::add", "<i128 as Arithmetic>::add"], bounds="x, y: whole i128 range (debug profile: overflow checks on)", tier="quick"),
     "c02_reduce_neg_exact": dict(fns=["<Expression as Arithmetic>::neg", "<i128 as Arithmetic>::neg"], bounds="x: whole i128 range", tier="quick"),
     "c02_reduce_none_is_zero": dict(fns=["<Expression as Arithmetic>::add/sub"], bounds="x: i128 without MIN; None on either side", tier="quick"),
